@@ -16,14 +16,15 @@ CONSTANTS DT1,       \* "served to a consumer" threshold: |mtime - lat| > DT1   
           DT45       \* "for sure cached by an agent" threshold: |mtime - lat| > DT45 (45 minutes)
 VARIABLES lastpass,  \* parameters of the pass taken in the last step ([kind |-> "none"] otherwise)
           own,       \* [Files -> BOOLEAN]  this origin owns the blob (hash ring)
-          wb,        \* [Files -> {"none","ok","fail"}]  pending write-back task of the blob and its outcome when executed
-          wbdone     \* [Files -> BOOLEAN]  the write-back task has been executed successfully
+          wb,        \* [Files -> Seq({"ok","fail"})]  pending write-back tasks of the blob (0..3, e.g. one per namespace),
+                     \*                                in the order the manager returns them, each with the outcome its execution will have
+          wbdone     \* [Files -> Nat]  number of write-back tasks of the blob executed successfully by the last forced pass
 cvars == <<fvars, lastpass, own, wb, wbdone>>
 NoPass == [kind |-> "none"]
 OSame == UNCHANGED <<own, wb, wbdone>>
 
 CInit(c) == FInit(c) /\ lastpass = NoPass /\ own = [f \in Files |-> TRUE]
-            /\ wb = [f \in Files |-> "none"] /\ wbdone = [f \in Files |-> FALSE]
+            /\ wb = [f \in Files |-> <<>>] /\ wbdone = [f \in Files |-> 0]
 \* FileMap actions lifted
 Lift(A) == A /\ lastpass' = NoPass /\ OSame
 
@@ -92,32 +93,48 @@ Dispatch(cfgc, util, withPolicy) ==
 
 \* ---------------------------------------------------------------- origin forced cleanup
 \* Reply: the set of deleted names.  A blob is a candidate if it is older than ttl or not owned.
-RECURSIVE ForceFold(_, _, _, _, _, _)
-ForceFold(s, ord, i, ttl, done, del) ==
-  IF i > Len(ord) THEN [s |-> s, done |-> done, del |-> del]
+\* A candidate that awaits write-back (persist = true) is deleted - and its flag cleared - only if EVERY pending
+\* write-back task of the blob has been executed successfully by this pass; if any task fails the blob is kept
+\* with its flag.  (The code stops at the first failing task; how many of the other tasks an implementation
+\* executes before giving up is left open: between the tasks in front of the first failure and all good ones.)
+AllOk(ts)     == \A i \in 1..Len(ts) : ts[i] = "ok"
+NumOk(ts)     == Cardinality({i \in 1..Len(ts) : ts[i] = "ok"})
+FirstFail(ts) == CHOOSE i \in 1..Len(ts) : ts[i] = "fail" /\ \A j \in 1..(i - 1) : ts[j] = "ok"
+RECURSIVE ForceFold(_, _, _, _, _, _, _)
+ForceFold(s, ord, i, ttl, done, failed, del) ==
+  IF i > Len(ord) THEN [s |-> s, done |-> done, failed |-> failed, del |-> del]
   ELSE LET f == ord[i] IN
-       IF ~Found(s, f) THEN ForceFold(s, ord, i + 1, ttl, done, del)
+       IF ~Found(s, f) THEN ForceFold(s, ord, i + 1, ttl, done, failed, del)
        ELSE LET s1 == PeekS(s, f)
                 cand == now - s1.mt[f] > ttl \/ ~own[f]
-            IN IF ~cand THEN ForceFold(s1, ord, i + 1, ttl, done, del)
-               ELSE IF s1.per[f] = "true" /\ wb[f] = "fail"
-                    THEN ForceFold(s1, ord, i + 1, ttl, done, del)               \* write-back failed: keep the blob
-               ELSE LET d1 == IF s1.per[f] = "true" /\ wb[f] = "ok" THEN [done EXCEPT ![f] = TRUE] ELSE done
+            IN IF ~cand THEN ForceFold(s1, ord, i + 1, ttl, done, failed, del)
+               ELSE IF s1.per[f] = "true" /\ ~AllOk(wb[f])
+                    THEN ForceFold(s1, ord, i + 1, ttl, [done EXCEPT ![f] = FirstFail(wb[f]) - 1],
+                                   failed \cup {f}, del)                         \* a write-back failed: keep blob and flag
+               ELSE LET d1 == IF s1.per[f] = "true" THEN [done EXCEPT ![f] = Len(wb[f])] ELSE done
                         s2 == IF s1.per[f] = "true" THEN [TouchS(s1, f) EXCEPT !.per[f] = "none"] ELSE s1
-                    IN ForceFold(DeleteS(s2, f), ord, i + 1, ttl, d1, del \cup {f})
-ForcePassRes(ord, ttl) == ForceFold(St, ord, 1, ttl, wbdone, {}).del
-ForcePass(ord, ttl) ==
-  LET r == ForceFold(St, ord, 1, ttl, wbdone, {}) IN
-  /\ Put(r.s) /\ wbdone' = r.done /\ Same /\ UNCHANGED <<own, wb>>
+                    IN ForceFold(DeleteS(s2, f), ord, i + 1, ttl, d1, failed, del \cup {f})
+ForceRun(ord, ttl) == ForceFold(St, ord, 1, ttl, [f \in Files |-> 0], {}, {})
+ForcePassRes(ord, ttl) == ForceRun(ord, ttl).del
+\* dn = the number of successful task executions per blob observed in this pass
+ForceDoneOK(r, dn) == \A f \in Files : IF f \in r.failed THEN dn[f] >= r.done[f] /\ dn[f] <= NumOk(wb[f])
+                                                          ELSE dn[f] = r.done[f]
+ForcePass(ord, ttl, dn) ==
+  LET r == ForceRun(ord, ttl) IN
+  /\ ForceDoneOK(r, dn)
+  /\ Put(r.s) /\ wbdone' = dn /\ Same /\ UNCHANGED <<own, wb>>
   /\ lastpass' = [kind |-> "force", ttl |-> ttl]
-\* environment: a write-back task is registered for a blob (with the outcome its execution will have)
-SetTask(f, o) == wb' = [wb EXCEPT ![f] = o] /\ wbdone' = [wbdone EXCEPT ![f] = FALSE]
-                 /\ lastpass' = NoPass /\ UNCHANGED <<fvars, own>>
+\* environment: the pending write-back tasks of a blob are (re)registered, with the outcome each execution will have
+SetTask(f, ts) == wb' = [wb EXCEPT ![f] = ts] /\ wbdone' = [wbdone EXCEPT ![f] = 0]
+                  /\ lastpass' = NoPass /\ UNCHANGED <<fvars, own>>
 SetOwn(f, b) == own' = [own EXCEPT ![f] = b] /\ lastpass' = NoPass /\ UNCHANGED <<fvars, wb, wbdone>>
 
 ----------------------------------------------------------------------------
 CONSTANTS TTIs, TTLs, Lowers, Usages,     \* design-model parameter sets
-          EnvFiles                        \* files whose ownership / write-back task the design model varies
+          EnvFiles,                       \* files whose ownership / write-back tasks the design model varies
+          TaskPats                        \* task outcome sequences the design model registers
+MCTaskPats  == {<<"ok">>, <<"fail">>, <<"fail", "ok">>, <<"ok", "fail">>}
+MCTaskPats3 == MCTaskPats \cup {<<>>, <<"ok", "ok">>, <<"ok", "fail", "ok">>, <<"fail", "ok", "ok">>, <<"ok", "ok", "fail">>}
 Perms(S) == {p \in [1..Cardinality(S) -> S] : \A i, j \in 1..Cardinality(S) : i # j => p[i] # p[j]}
 CNext == \/ \E f \in Files : Lift(Create(f, 1, now)) \/ Lift(Touch(f)) \/ Lift(Delete(f))
          \/ \E f \in Files, v \in {"true", "none"} : Lift(SetPersist(f, v))
@@ -126,8 +143,8 @@ CNext == \/ \E f \in Files : Lift(Create(f, 1, now)) \/ Lift(Touch(f)) \/ Lift(D
          \/ \E ord \in Perms(ListRes), tti \in TTIs, ttl \in TTLs, lo \in Lowers, u \in Usages :
                TTLPass(ord, tti, ttl, lo, u, 4)
          \/ \E ord \in Perms(ListRes), lo \in Lowers \ {0} : PolicyPass(ord, lo, 4)
-         \/ \E ord \in Perms(ListRes), ttl \in TTLs : ForcePass(ord, ttl)
-         \/ \E f \in EnvFiles, o \in {"ok", "fail"} : SetTask(f, o)
+         \/ \E ord \in Perms(ListRes), ttl \in TTLs : ForcePass(ord, ttl, ForceRun(ord, ttl).done)
+         \/ \E f \in EnvFiles, ts \in TaskPats : SetTask(f, ts)
          \/ \E f \in EnvFiles : SetOwn(f, FALSE)
 CSpec == (\E c \in FCaps : CInit(c)) /\ [][CNext]_cvars
 
@@ -137,8 +154,8 @@ CSpec == (\E c \in FCaps : CInit(c)) /\ [][CNext]_cvars
 PersistProtectedStep ==
   \A f \in Files : (persist[f] = "true" /\ onDisk[f] /\ ~onDisk'[f]) =>
         /\ lastpass'.kind = "force"
-        /\ wb[f] # "fail"
-        /\ (wb[f] = "ok" => wbdone'[f])
+        /\ AllOk(wb[f])
+        /\ wbdone'[f] = Len(wb[f])
 PersistProtected == [][PersistProtectedStep]_cvars
 \* a normal pass (no threshold cut-off) removes exactly the unprotected idle / expired files; on a
 \* capacity-bounded map the pass's own reloads may additionally evict unprotected files
